@@ -471,6 +471,17 @@ type FuncContract struct {
 	IsIface   bool
 	FrameStrict bool
 	GhostAssigns []GhostAssign
+	Ats          []*AtBlock
+	AutoUse      []string // quantified assumptions (by label) tried for obligations without a clause (no-panic checks)
+}
+
+// AtBlock holds assertions checked right before the n-th call (in source order) whose callee name contains Callee.
+type AtBlock struct {
+	Callee  string
+	Ordinal int
+	Asserts []*Clause
+	Assumes []*Clause
+	seen    bool
 }
 
 type GhostAssign struct {
@@ -546,7 +557,7 @@ var clauseKeywords = map[string]bool{
 	"func": true, "loop": true, "type": true, "pred": true, "fn": true, "axiom": true, "lemma": true, "iface": true,
 	"ghostvar": true, "requires": true, "ensures": true, "invariant": true, "modifies": true, "pure": true,
 	"may_panic": true, "props": true, "ghost": true, "guarded_by": true, "immutable": true, "assume": true,
-	"fresh": true, "trusted": true, "inline": true, "rely": true, "params": true, "results": true, "package": true,
+	"at": true, "assert": true, "autouse": true, "fresh": true, "trusted": true, "inline": true, "rely": true, "params": true, "results": true, "package": true,
 }
 
 type rawClause struct {
@@ -710,6 +721,30 @@ func (c *Contracts) LoadFile(path, defaultPkg string, extern bool) error {
 			c.Funcs[key] = curF
 			curT = nil
 			curLoop = 0
+		case "at":
+			if curF == nil {
+				return fmt.Errorf("%s:%d: at outside func", path, r.line)
+			}
+			f := strings.Fields(r.text)
+			if len(f) != 2 || !strings.HasPrefix(f[1], "#") {
+				return fmt.Errorf("%s:%d: at <callee> #n", path, r.line)
+			}
+			n, err := strconv.Atoi(f[1][1:])
+			if err != nil {
+				return fmt.Errorf("%s:%d: %v", path, r.line, err)
+			}
+			curF.Ats = append(curF.Ats, &AtBlock{Callee: f[0], Ordinal: n})
+			curLoop = -1
+		case "assert":
+			if curF == nil || len(curF.Ats) == 0 || curLoop != -1 {
+				return fmt.Errorf("%s:%d: assert outside an at block", path, r.line)
+			}
+			cl, err := mkClause("assert", r)
+			if err != nil {
+				return err
+			}
+			ab := curF.Ats[len(curF.Ats)-1]
+			ab.Asserts = append(ab.Asserts, cl)
 		case "loop":
 			// "loop #2" within current func
 			t := strings.TrimSpace(r.text)
@@ -785,6 +820,8 @@ func (c *Contracts) LoadFile(path, defaultPkg string, extern bool) error {
 				}
 				curF.Modifies = append(curF.Modifies, e)
 			}
+		case "autouse":
+			curF.AutoUse = strings.Fields(strings.ReplaceAll(r.text, ",", " "))
 		case "pure":
 			curF.Pure = true
 		case "inline":
